@@ -62,7 +62,8 @@ KINDS = ['404', '405', '400path', '400chunk', '413', '500', '500iter', '500type'
          'crit404handler', 'crit500handler', 'critheader']
 ECHO_KINDS = ['500int', '500echo', '500echoiter']      # the handler's exception text repeats request data
 ALL_KINDS = KINDS + ECHO_KINDS
-ACCEPTS = ['', 'text/html', 'application/json', 'application/json, text/plain, */*']
+ACCEPTS = ['', 'text/html', 'application/json', 'application/json, text/plain, */*', 'application/json;q=0.9, text/html;q=0.1',
+           'application/json; charset=utf-8']
 WHERES = ['path', 'query', 'host', 'xfh', 'proto', 'all']
 
 MARKUP = ['<script>alert(%s)</script>', '"><img src=x onerror=%s>', "'><svg/onload=%s>", '</tt><b>%s</b><tt>',
